@@ -491,8 +491,13 @@ func convertToArrayType[T any, R any](value any) (R, bool) {
 
 // extractBaseValue extracts the base value T from constraint type R.
 func extractBaseValue[T any, R any](value R) T {
-	if ptr, ok := any(value).(*T); ok && ptr != nil {
-		return *ptr
+	if ptr, ok := any(value).(*T); ok {
+		if ptr != nil {
+			return *ptr
+		}
+		// A nil pointer (nil input accepted by an Optional/Nilable array): zero T.
+		var zero T
+		return zero
 	}
 	return any(value).(T)
 }
